@@ -78,6 +78,11 @@ def riem_gradient(E, s):
         g = 4.0 * (x * x * x)
     else:
         raise ValueError(fk)
+    if s.get('before') == 'gradient':
+        # an earlier gradient of another functional at the same base point object must not leak into this one
+        tt.manifold.riemannian_gradient(x, lambda X: X.sum())      # (not a multiple of |X|^2: that gradient is x itself and is removed by the gauge projection)
+    elif s.get('before') == 'projection':
+        tt.manifold.riemannian_projection(x, t)
     rg = tt.manifold.riemannian_gradient(x, f)
     ref = tt.manifold.riemannian_projection(x, g)
     E.true('is_tt', isinstance(rg, tt.TT) and rg.is_ttm == (M is not None))
